@@ -675,6 +675,10 @@ class FBHistory(common.Suite):
             s["T"] = rng.choice([50.0, 300.0, 2000.0])
             s["seed"] = rng.randrange(1, 2**31)
             s["ntrials"] = 50 if tier == "quick" else 500
+            # the driver's own mass table: the atoms' masses (default), a custom (n, 3) table given to
+            # update_masses(), or atoms whose masses are changed after the driver was built
+            s["mass_mode"] = ["default", "table", "changed", "table"][i % 4] if i >= 2 else "default"
+            s["table"] = [[round(rng.uniform(0.5, 40.0), 3) for _ in range(3)] for _ in range(n)]
             yield s
 
     def real(self, case):
@@ -685,6 +689,13 @@ class FBHistory(common.Suite):
         attach_calc(atoms, case["ff"])
         set_constraint(atoms, case["cons"])
         fb = ForceBias(atoms, delta=case["delta"], temperature=case["T"], seed=case["seed"])
+        mode = case.get("mass_mode", "default")
+        if mode == "table":
+            fb.update_masses(np.array(case["table"], float))
+        elif mode == "changed":
+            atoms.set_masses(np.array(case["table"], float)[:, 0])
+            case["masses"] = [float(x) for x in atoms.get_masses()]
+        shaped = np.array(fb.shaped_masses, float)
         rec = []
         orig = atoms.set_momenta
 
@@ -695,11 +706,11 @@ class FBHistory(common.Suite):
         atoms.set_momenta = set_momenta
         tr = Tracker(atoms, case["cons"])
         trace = []
-        m = atoms.get_masses()[:, None]
         prev = (atoms.get_positions(), atoms.get_momenta())
         for _ in fb.irun(case["ntrials"]):
             after = (atoms.get_positions(), atoms.get_momenta())
-            trace.append({"disp": (rec[-1] / m) if rec else None, "before": prev, "after": after})
+            trace.append({"disp": (rec[-1] / shaped) if rec else None, "shaped": shaped, "before": prev,
+                          "after": after})
             prev = after
             rec.clear()
             tr.look()
@@ -717,7 +728,8 @@ class FBHistory(common.Suite):
                 continue
             q, p = t["before"]
             lines.append(" ".join(["c12trial", str(n), H.enc_cons(case["cons"], n), "1", H.enc_col(case["masses"]),
-                                   *state_tokens(q, p, q, p), "zero", "fb", H.enc_arr(t["disp"])]))
+                                   *state_tokens(q, p, q, p), "zero", "fb", H.enc_arr(t["disp"]),
+                                   H.enc_arr(t["shaped"])]))
         return lines
 
     def model_obs(self, case, outs):
@@ -745,7 +757,7 @@ class FBHistory(common.Suite):
     def classify(self, case, obs):
         if obs.get("max_moved", 0.0) == 0.0:
             return "exception" if "exception" in obs else None
-        return f"{case['cons']['kind']}:{case['ff']['kind']}:delta={case['delta']}"
+        return f"{case['cons']['kind']}:{case['ff']['kind']}:delta={case['delta']}:{case.get('mass_mode', 'default')}"
 
 
 def suites(tier):
